@@ -62,3 +62,18 @@ impl Error {
         ensures r is Syntax,
     { unimplemented!() }
 }
+
+// A-STD: std functions with exact, documented semantics that the extracted code does not use today; they are specified
+// so that a rewording of the code in terms of them stays within reach of the verifier (decided, not "unsupported").
+pub assume_specification<T>[ core::mem::replace ](dest: &mut T, src: T) -> (r: T)
+    ensures *final(dest) == src, r == *old(dest);
+pub open spec fn ascii_lower(c: char) -> char { if 'A' <= c && c <= 'Z' { ((c as u8) + 32) as char } else { c } }
+pub open spec fn ascii_upper(c: char) -> char { if 'a' <= c && c <= 'z' { ((c as u8) - 32) as char } else { c } }
+pub assume_specification[ char::is_ascii ](c: &char) -> (r: bool)
+    ensures r == ((*c as u32) < 128);
+pub assume_specification[ char::to_ascii_lowercase ](c: &char) -> (r: char)
+    ensures r == ascii_lower(*c);
+pub assume_specification[ char::to_ascii_uppercase ](c: &char) -> (r: char)
+    ensures r == ascii_upper(*c);
+pub assume_specification[ char::eq_ignore_ascii_case ](a: &char, b: &char) -> (r: bool)
+    ensures r == (ascii_lower(*a) == ascii_lower(*b));
